@@ -22,6 +22,7 @@ class Ref(object):
         self.objective = {}
         self.direction = "max"
         self.valid = True           # False once an operation without reference semantics was applied
+        self.shared = set()         # metabolites also used by a detached reaction the user still holds
 
     @classmethod
     def from_model(cls, m, rules):
@@ -114,6 +115,11 @@ class Ref(object):
         if orphans:
             for mid in r["mets"]:
                 if not any(mid in x["mets"] for x in self.rxn.values()):
+                    if mid in self.shared:
+                        # still referenced by a reaction outside the model: whether that makes it an orphan is not
+                        # documented - nothing asserted from here on
+                        self.valid = False
+                        return
                     if mid in self.mets:
                         self.mets.remove(mid)
                         self._ungroup("Metabolite", mid)
@@ -157,6 +163,10 @@ class Ref(object):
             x["rule"] = ren(x["rule"])
         self.genes.discard(old)
         self.genes.add(new)
+        for g in self.groups.values():
+            if "Gene:" + old in g:
+                g.discard("Gene:" + old)
+                g.add("Gene:" + new)
 
     def rename_reaction(self, old, new):
         self.rxn = {(new if k == old else k): v for k, v in self.rxn.items()}
